@@ -467,6 +467,16 @@ def _typed_args(E, c, bound, st):
             if isinstance(v, PyObj) and not isinstance(v.obj, (int, str, bool, type(None), list, tuple)):
                 out[n] = v
                 continue
+            if isinstance(v, IterView):
+                from .builtins_ import seq_of
+                from .comp import list_comp_from_gen
+                if v.kind == "gen":
+                    outs_ = list(list_comp_from_gen(E, v, st))
+                    if len(outs_) != 1:
+                        raise OutsideSubset("generator argument forked")
+                    v = outs_[0][1]
+                else:
+                    v = seq_of(E, v, st)
             try:
                 v2 = E.coerce(v, ty, st)
             except OutsideSubset as e:
@@ -507,7 +517,7 @@ def havoc_lv(E, st, expr, frame, hint):
             st.ghost[g] = E.fresh(st.ghost[g].ty, "ghost_" + g)
         return
     if expr == "heap:*":
-        havoc_all(E, st)
+        havoc_all(E, st, ghosts=False)      # ghost variables are listed separately in a modifies clause
         return
     node = parse_expr(expr)
     if isinstance(node, ast.Name):
@@ -548,13 +558,14 @@ def _wf_heap_key(E, st, key):
             return
 
 
-def havoc_all(E, st):
+def havoc_all(E, st, ghosts=True):
     for key in list(st.heap):
         field, tk = key
         st.heap[key] = z3.Const(E.fresh_name(f"Hhavoc_{field}"), st.heap[key].sort())
         _wf_heap_key(E, st, key)
-    for g in list(st.ghost):
-        st.ghost[g] = E.fresh(st.ghost[g].ty, "ghost_" + g)
+    if ghosts:
+        for g in list(st.ghost):
+            st.ghost[g] = E.fresh(st.ghost[g].ty, "ghost_" + g)
 
 
 def _read_keys(E, st, reads):
